@@ -131,6 +131,16 @@ def r20_2(ctx):
         if n.get("k") in ("PTupleStruct",) and n.get("adt") == AST + "Expr" and n.get("variant") == "Ident":
             plain = True
     reads_dc = any(field_path(strip_transparent(x)) == "self.define_component" for x in walk(dc["body"]) if x.get("k") == "Field")
+    if not reads_dc:
+        # the recorded context may be handed in as a parameter: then every caller must pass self.define_component there
+        pi = [i for i, t in enumerate(dc["inputs"]) if "SyntaxContext" in t]
+        sites = [n for hb in ctx.facts.hir if hb["crate"] == VISITOR_CRATE for n in walk(hb["body"])
+                 if n.get("k") in ("Call", "MethodCall") and n.get("callee") == dc["path"]]
+        if len(pi) == 1 and sites:
+            def arg(n):
+                a = ([n["recv"]] if n.get("k") == "MethodCall" else []) + list(n["args"])
+                return a[pi[0]] if pi[0] < len(a) else None
+            reads_dc = all(arg(n) is not None and field_path(strip_transparent(arg(n))) == "self.define_component" for n in sites)
     r.ob("predicate compares the callee symbol with \"defineComponent\"", has_name, C.mloc(dc, dc), "sym == \"defineComponent\"" if has_name else "no comparison of the symbol with the constant")
     r.ob("predicate compares the callee's syntax context with the recorded import", has_ctxt and reads_dc, C.mloc(dc, dc),
          "ctxt == self.define_component" if (has_ctxt and reads_dc) else "the scope comparison is missing: any `defineComponent` in any scope matches once the import exists")
